@@ -12,14 +12,14 @@ CHECKS = {
     "C03": dict(
         engine="streamsim",
         technique=TECH + "query/update histories with injected spurious queries, twin-world comparison + state snapshots, ddmin-style minimisation, JSON replay",
-        text="Seeded exploration of histories of interleaved query/update calls on every exported stream strategy and budget manager (stub or real classifier peer). Each history is executed twice on equal-parameter objects, with and without scheduler-injected spurious queries (duplicates of the pending query, foreign candidates, other chunk sizes, before lazy initialisation, between a query and its update); any difference in any later result, any difference between repeated identical queries and any change of a fitted attribute across an injected query is a violation. Evidence, not proof: the space of histories is sampled.",
+        text="Seeded exploration of histories of interleaved query/update calls on every exported stream strategy and budget manager (stub or real classifier peer). Each history is executed twice on equal-parameter objects, with and without scheduler-injected spurious queries (duplicates of the pending query, foreign candidates, other chunk sizes or feature counts, before lazy initialisation, between a query and its update; histories may begin with an update so that query, not update, creates the fitted attributes); any difference in any later result, any difference between repeated identical queries and any change of a fitted attribute across an injected query is a violation. Evidence, not proof: the space of histories is sampled.",
         note="Trusted: the honest-caller driver, the stub classifier (stateless by construction), numpy's RandomState. Attributes re-derived from constructor parameters on each call (n_features_in_, budget_, dist_func_, dist_func_dict_) are not counted as state.",
         design="4/C03",
     ),
     "C04": dict(
         engine="streamsim",
         technique=TECH + "adversarial and corrupted utility streams x chunkings, checked per grant against a reference model of the budget estimate and against the stated prefix bound",
-        text="Seeded exploration of adversarial utility streams (maximal, constant, bursts, near-threshold, NaN/inf corrupted) x budgets x windows x chunkings x spurious queries for the five window-based managers, the density-based split manager, periodic sampling, random sampling without budget exceeding and the Zliobaite/density/cognitive strategies as pass-throughs. A small reference model recomputes the running estimate from the observed grants and flags any grant made while the estimate is not below the budget; the stated prefix bound is checked at every n.",
+        text="Seeded exploration of adversarial utility streams (maximal, constant, bursts, near-threshold, NaN/inf corrupted) x budgets x windows x chunkings x spurious queries for the five window-based managers, the density-based split manager, periodic sampling, random sampling without budget exceeding and the Zliobaite/density/cognitive strategies as pass-throughs. A small reference model recomputes the running estimate from the observed grants and flags any grant made while the estimate is not below the budget; the stated prefix bound is checked at every n. Histories include a warm-up update before the first query and set_params re-configuration of a used manager (budget, window).",
         note="Trusted: the reference recurrences (taken from the property statement and the class docstrings), honest caller. Density/cognitive strategies are driven one instance per call (within a chunk they consult the manager without committing).",
         design="4/C04",
     ),
@@ -34,7 +34,7 @@ CHECKS = {
         engine="poolsim",
         technique=TECH + "whole active-learning histories (initial labelling x batch size x scheduled oracle answers) on one long-lived strategy object, invariant monitor per cycle, line-count fuel for termination",
         text="Every exported single-annotator pool strategy (and documented variant, with default and alternative models) is driven through the complete standard loop on small pools with ties, duplicates, constant and collinear features, from zero labels to a single unlabeled sample, with oracles that answer truthfully, constantly, with one class for a long prefix, or randomly. After every query: returned within a deterministic step budget, no exception, only unlabeled samples, pairwise distinct, exactly min(batch_size, remaining) many; pool exhausted after ceil(u/batch_size) queries. No infrastructure fault exists in a synchronous loop; the searched space is histories.",
-        note="Trusted: the oracle/driver, numpy, scikit-learn estimators used as models. Wrappers are not subjects (documented different counts). Genuine defects found here were repaired (see known_findings.json); the capacity-blind leaf allocation of RegressionTreeBasedAL is recorded as a known finding.",
+        note="Trusted: the oracle/driver, numpy, scikit-learn estimators used as models. The two pool wrappers take part with batch_size=1 (the only size both document). A raising query is only reported when the caller's scikit-learn based model, fitted on its own on the same labels, predicts valid probabilities. Genuine defects found here were repaired (see known_findings.json); the capacity-blind leaf allocation of RegressionTreeBasedAL is recorded as a known finding.",
         design="4/C14",
     ),
     "C05": dict(
@@ -68,14 +68,14 @@ CHECKS = {
     "C15": dict(
         engine="lifesim",
         technique=TECH + "fit / partial_fit histories reaching zero-label, one-label and failed-collaborator states; fall-back value oracle plus distribution-coherence invariants after every event",
-        text="NARROWED CLAIM: the fall-back clause and the history-reached degenerate states. SklearnRegressor and SklearnNormalRegressor around real estimators behind the fault injector must, after an injected or natural fit failure and with zero or one label, return the documented default (mean 0 or the empirical label mean; std 1 or the empirical std) instead of raising. Along every history all probabilistic regressors must satisfy predict == mean/std/entropy of predict_target_distribution, finite non-negative std under the stated precondition, sample_y of shape (n_query, n_samples) that repeats for a fixed seed; these three are pure per state and are evaluated and reported, the claim being the fall-back clause and the reached states.",
+        text="NARROWED CLAIM: the fall-back clause and the history-reached degenerate states. SklearnRegressor and SklearnNormalRegressor around real estimators behind the fault injector must, after an injected or natural fit failure (estimators that need two samples; integer-typed features included) and with zero or one label, return the documented default (mean 0 or the empirical label mean; std 1 or the empirical std) instead of raising. Along every history all probabilistic regressors must satisfy predict == mean/std/entropy of predict_target_distribution, finite non-negative std under the stated precondition, sample_y of shape (n_query, n_samples) that repeats for a fixed seed; these three are pure per state and are evaluated and reported, the claim being the fall-back clause and the reached states.",
         note="NadarayaWatsonRegressor is only judged with at least one label. Estimator faults are clean failures (raise before mutating).",
         design="4/C15",
     ),
     "C19": dict(
         engine="idxsim",
         technique=TECH + "operation sequences on IndexClassifierWrapper, lock-stepped with an executable reference model (multisets of (index, label, weight) triples + retraining a fresh clone); speed-up on/off twin",
-        text="Seeded operation sequences (construction with un-/pre-fitted classifier and base, precompute, fit, partial_fit from the current or the stored base model, base updates, predictions; label and weight overrides, repeated indices) under all flag combinations are executed on the real wrapper and on a small reference model that keeps the implied multiset of (sample, label, weight) triples (for native partial_fit: the ordered call log). After every prediction the wrapper must agree with a fresh clone of the wrapped classifier trained from scratch on that multiset; state refusals (not fitted, base not set, unknown provenance) must occur exactly when the model predicts them and must leave the wrapper unchanged; for the Parzen window classifier the same sequence with use_speed_up toggled must predict alike.",
+        text="Seeded operation sequences (construction with un-/pre-fitted classifier and base, full and partial precompute announcements, fit, partial_fit from the current or the stored base model, base updates, predictions; label and weight overrides, repeated indices) under all flag combinations are executed on the real wrapper and on a small reference model that keeps the implied multiset of (sample, label, weight) triples (for native partial_fit: the ordered call log). After every prediction the wrapper must agree with a fresh clone of the wrapped classifier trained from scratch on that multiset; state refusals (not fitted, base not set, unknown provenance) must occur exactly when the model predicts them and must leave the wrapper unchanged; for the Parzen window classifier the same sequence with use_speed_up toggled must predict alike (a prediction needing kernel entries that were never announced may only fail with the documented ValueError).",
         note="Probabilities to 1e-9 relative; hard predictions only where the top-two margin exceeds it and the wrapped classifier is not in its random fall-back state. Argument-validation refusals (duplicate indices under enforce_unique_samples) end a run; mixed weighted/unweighted calls are not generated (invalid).",
         design="4/C19",
     ),
@@ -89,8 +89,8 @@ CHECKS = {
     "C07": dict(
         engine="crowdsim",
         technique=TECH + "crowd-labelling histories with annotator-availability faults (annotators off-line, pairs blocked, no answer) under all documented argument representations; per-call invariant monitor; line-count fuel for the liveness clause",
-        text="A multi-annotator strategy (SingleAnnotatorWrapper around real single-annotator strategies, IntervalEstimationThreshold) is driven through several crowd-labelling cycles on a label matrix that fills up. Per cycle the scheduler decides which annotators are off-line, which pairs are blocked, whether a queried annotator answers, how availability and candidates are expressed (None, index array, boolean matrix, feature rows), the batch size and the annotators-per-sample request. Every call must return within a deterministic step budget; the result must be k = min(batch_size, available pairs) pairwise distinct available pairs; utilities must have the documented shape, be NaN at unavailable and already chosen pairs and a number at the chosen pair; an integer annotators-per-sample request must be met for every selected sample but the last where the selected samples offer enough pairs.",
-        note="Availability is what the arguments say (documented table). CoreSet is not used as wrapped strategy (its own defect with labeled index candidates would only be passed on). IntervalEstimationThreshold returning fewer pairs is a recorded known finding.",
+        text="A multi-annotator strategy (SingleAnnotatorWrapper around every classification strategy of the pool registry, IntervalEstimationThreshold) is driven through several crowd-labelling cycles on a label matrix that fills up. Per cycle the scheduler decides which annotators are off-line, which pairs are blocked, whether a queried annotator answers, how availability and candidates are expressed (None, index array, boolean matrix, feature rows), the batch size and the annotators-per-sample request. Every call must return within a deterministic step budget; the result must be k = min(batch_size, available pairs) pairwise distinct available pairs; utilities must have the documented shape, be NaN at unavailable and already chosen pairs and a number at the chosen pair; an annotators-per-sample request (integer or per-rank array) must be met for every selected sample but the last where the selected samples offer enough pairs.",
+        note="Availability is what the arguments say (documented table). Strategies that need the position of candidates in X are not given feature-row candidates (documented refusal). Known findings: IntervalEstimationThreshold returns fewer pairs; Badge and Quire as wrapped strategies raise once every offered sample carries some annotator's label.",
         design="4/C07",
     ),
 }
